@@ -87,7 +87,21 @@ func satisfies(lit string, rules []string) verdict {
 	}
 	kind := litKind(lit)
 	if v, ok := get("nullable"); ok && v == "true" && lit == "null" {
-		if len(kv) == 1 {
+		// null satisfies a nullable element whatever value rules (enum, const) stand
+		// next to it, before or after
+		settled := true
+		for _, r := range kv {
+			switch r.name {
+			case "nullable", "optional", "enum", "const":
+			case "type":
+				if r.val != `"any"` && r.val != `"null"` {
+					settled = false
+				}
+			default:
+				settled = false
+			}
+		}
+		if settled {
 			return accept
 		}
 		return noClaim // nullable together with a type/or/reference on a null example: not settled by the statement
@@ -455,6 +469,10 @@ func c01TypedValues(thorough bool, visit func(tv)) {
 		visit(tv{Lit: v, Rules: []string{"const: true"}, Witness: v, Family: "const"})
 		visit(tv{Lit: v, Rules: []string{"const: false"}, Witness: v, Family: "const"})
 		visit(tv{Lit: v, Rules: []string{"nullable: true"}, Witness: v, Family: "nullable"})
+		for _, c := range []string{"true", "false"} {
+			visit(tv{Lit: v, Rules: []string{"const: " + c, "nullable: true"}, Witness: v, Family: "const-nullable"})
+			visit(tv{Lit: v, Rules: []string{"nullable: true", "const: " + c}, Witness: v, Family: "const-nullable"})
+		}
 		visit(tv{Lit: v, Rules: nil, Witness: v, Family: "plain"})
 	}
 	// (f) enum
@@ -467,8 +485,9 @@ func c01TypedValues(thorough bool, visit func(tv)) {
 					continue
 				}
 				visit(tv{Lit: v, Rules: []string{"enum: [" + a + ", " + b + "]"}, Witness: a, Family: "enum"})
-				if thorough {
+				if thorough || v == "null" {
 					visit(tv{Lit: v, Rules: []string{"enum: [" + a + ", " + b + "]", "nullable: true"}, Witness: a, Family: "enum-nullable"})
+					visit(tv{Lit: v, Rules: []string{"nullable: true", "enum: [" + a + ", " + b + "]"}, Witness: a, Family: "enum-nullable"})
 				}
 			}
 		}
